@@ -65,8 +65,7 @@ def run(tier, replay=None):
         chk.sample({"id": ids[-1], "lines": len(recs[-1]['lst'])})
         chk.assumptions += ["states/transitions are nominal: this check is pure trace validation (one TLC evaluation per chunk)",
                             "listing text is parsed by lib/asmlib.parse_listing (regex on hexasm's fixed format)"]
-        if ok < 500:
-            raise vlib.MachineryError("vacuity: too few listings validated")
+        chk.vacuity(ok < 500, "too few listings validated")
     finally:
         shutil.rmtree(d, ignore_errors=True)
     return chk.finish()
